@@ -172,7 +172,11 @@ func VerifC07() {
 	small := vfTier() == 0 && nspec == 2
 	nid := 1
 	if !small {
-		nid = 1 + vfChoice("nid", 2+vfTier())
+		maxid := 2 + vfTier()
+		if nspec == 2 {
+			maxid = 2 // three identifiers only with at most one source spec (keeps the thorough tier inside its budget)
+		}
+		nid = 1 + vfChoice("nid", maxid)
 	}
 	var idents []*dst.Ident
 	for i := 0; i < nid; i++ {
